@@ -4,7 +4,7 @@ from ..report import V
 from . import C01
 
 PID = 'C03'
-MONS = [monitors.m_sanity]
+MONS = [monitors.m_sanity, monitors.m_feasible]
 T = alphabets.T
 
 
@@ -410,7 +410,8 @@ def replay_program(pp, case):
 
 def run(col):
     pp = env.load()
-    col.rule = ("(a) state-sanity monitor (amounts >= 0, 0 <= volume <= capacity) on every object returned along every "
+    col.rule = ("(a) state-sanity monitor (amounts >= 0, 0 <= volume <= capacity) on every object returned, and feasibility monitor "
+                "(a transfer / remove / fill_to that clearly fits must not raise; only ValueError/TypeError/RuntimeError are ever raised) along every "
                 "history of the full operation menu incl. infeasible requests, depth 2 (quick) / 3 (thorough), plus the "
                 "C01 geometry/unit sweeps; (b) boundary enumeration: for every operation and feasibility constraint the "
                 "requests below / at / above the boundary, directly and as a recipe step, classified must-accept / "
